@@ -38,7 +38,7 @@ theorem exec_cons (i : Insn) (rest : List Insn) (s : State) (h : i.op ≠ 0x18) 
     cases h1 : step1 i s with
     | none => rfl
     | some s1 =>
-      simp only [Option.bind_some, exec]
+      simp only [Option.bind_some]
       unfold step1 at h1
       split at h1
       · cases h1; rfl
@@ -55,56 +55,209 @@ theorem exec_pc (c : List Insn) (s : State) (p : Nat) : exec c { s with pc := p 
   | [i] => simp [exec, step1]
   | i :: j :: rest => simp [exec, step1, step2]
 
-theorem exec_res_pc {c : List Insn} {s s' : State} (h : exec c s = some s') : s'.pc = 0 := by
-  induction c using exec.induct generalizing s with
-  | case1 s0 => simp [exec] at h; subst h; rfl
-  | case2 i s0 =>
-    simp only [exec] at h
-    split at h
-    · cases h
-    · unfold step1 at h; split at h
-      · cases h; rfl
-      · cases h
-  | case3 i j rest s0 ih1 ih2 =>
-    simp only [exec] at h
-    split at h
-    · cases h1 : step2 i j s0 with
-      | none => simp [h1] at h
-      | some s1 => simp [h1] at h; exact ih1 h
-    · cases h1 : step1 i s0 with
-      | none => simp [h1] at h
-      | some s1 => simp [h1] at h; exact ih2 h
+theorem exec_single_ld (i : Insn) (s : State) (h : i.op = 0x18) : exec [i] s = none := by
+  simp only [exec, h, if_true]
 
-theorem exec_append {a b : List Insn} {s s1 : State} (h : exec a s = some s1) :
-    exec (a ++ b) s = exec b s1 := by
-  induction a using exec.induct generalizing s with
-  | case1 s0 =>
-    simp [exec] at h; subst h
-    simp [exec_pc]
-  | case2 i s0 =>
-    simp only [exec] at h
-    split at h
-    · cases h
-    · rename_i hop
-      simp only [List.singleton_append]
-      rw [exec_cons _ _ _ hop, h]; rfl
-  | case3 i j rest s0 ih1 ih2 =>
-    simp only [exec] at h
-    split at h
-    · rename_i hop
-      cases h1 : step2 i j s0 with
-      | none => simp [h1] at h
-      | some s2 =>
-        simp [h1] at h
-        simp only [List.cons_append]
-        rw [exec_cons2 _ _ _ _ hop, h1]; exact ih1 h
-    · rename_i hop
-      cases h1 : step1 i s0 with
-      | none => simp [h1] at h
-      | some s2 =>
-        simp [h1] at h
-        have := ih2 h
-        simp only [List.cons_append] at this ⊢
-        rw [exec_cons _ _ _ hop, h1]; exact this
+/-- induction along the way `exec` consumes a segment -/
+theorem exec_ind {P : List Insn → Prop} (h0 : P [])
+    (h1 : ∀ i rest, i.op ≠ 0x18 → P rest → P (i :: rest))
+    (h2 : ∀ i j rest, i.op = 0x18 → P rest → P (i :: j :: rest))
+    (h3 : ∀ i, i.op = 0x18 → P [i]) : ∀ l, P l := by
+  intro l
+  generalize hn : l.length = n
+  induction n using Nat.strongRecOn generalizing l with
+  | _ n ih =>
+    match l, hn with
+    | [], _ => exact h0
+    | [i], _ =>
+      by_cases h : i.op = 0x18
+      · exact h3 i h
+      · exact h1 i [] h h0
+    | i :: j :: rest, hn =>
+      by_cases h : i.op = 0x18
+      · exact h2 i j rest h (ih rest.length (by simp at hn; omega) rest rfl)
+      · exact h1 i (j :: rest) h (ih (j :: rest).length (by simp at hn ⊢; omega) (j :: rest) rfl)
+
+theorem exec_res_pc {c : List Insn} : ∀ {s s' : State}, exec c s = some s' → s'.pc = 0 := by
+  induction c using exec_ind with
+  | h0 => intro s s' h; simp [exec] at h; subst h; rfl
+  | h1 i rest hop ih =>
+    intro s s' h
+    rw [exec_cons _ _ _ hop] at h
+    cases h1 : step1 i s with
+    | none => simp [h1] at h
+    | some s1 =>
+      simp [h1] at h
+      cases rest with
+      | nil =>
+        simp [exec] at h; subst h
+        unfold step1 at h1; split at h1
+        · cases h1; rfl
+        · cases h1
+      | cons j r => exact ih h
+  | h2 i j rest hop ih =>
+    intro s s' h
+    rw [exec_cons2 _ _ _ _ hop] at h
+    cases h1 : step2 i j s with
+    | none => simp [h1] at h
+    | some s1 =>
+      simp [h1] at h
+      cases rest with
+      | nil =>
+        simp [exec] at h; subst h
+        unfold step2 at h1; split at h1
+        · cases h1; rfl
+        · cases h1
+      | cons k r => exact ih h
+  | h3 i hop => intro s s' h; rw [exec_single_ld _ _ hop] at h; cases h
+
+theorem exec_append {a b : List Insn} : ∀ {s s1 : State}, exec a s = some s1 → exec (a ++ b) s = exec b s1 := by
+  induction a using exec_ind with
+  | h0 => intro s s1 h; simp [exec] at h; subst h; simp [exec_pc]
+  | h1 i rest hop ih =>
+    intro s s1 h
+    rw [exec_cons _ _ _ hop] at h
+    simp only [List.cons_append]
+    rw [exec_cons _ _ _ hop]
+    cases h1 : step1 i s with
+    | none => simp [h1] at h
+    | some s2 => simp [h1] at h ⊢; exact ih h
+  | h2 i j rest hop ih =>
+    intro s s1 h
+    rw [exec_cons2 _ _ _ _ hop] at h
+    simp only [List.cons_append]
+    rw [exec_cons2 _ _ _ _ hop]
+    cases h1 : step2 i j s with
+    | none => simp [h1] at h
+    | some s2 => simp [h1] at h ⊢; exact ih h
+  | h3 i hop => intro s s1 h; rw [exec_single_ld _ _ hop] at h; cases h
+
+/-! ## relation to `Ebpf.run` -/
+
+theorem step_reloc1 (prog : List Insn) (s : State) (i : Insn) (hf : fetch prog s.pc = some i)
+    (hs : straight i = true) (hop : i.op ≠ 0x18) :
+    step prog s = match step [i] { s with pc := 0 } with
+      | .next s' => .next { s' with pc := s.pc + 1 }
+      | _ => .bad := by
+  have h0 : fetch [i] 0 = some i := rfl
+  simp only [straight, Bool.and_eq_true, bne_iff_ne, ne_eq] at hs
+  obtain ⟨h5, h6⟩ := hs
+  unfold step
+  simp only [hf, h0]
+  by_cases hc : i.op % 8 = 7 ∨ i.op % 8 = 4
+  · simp only [hc, if_true]
+    split
+    · split <;> simp [State.setReg]
+    · split
+      · simp [State.setReg]
+      · split <;> simp_all [State.setReg]
+  · simp only [hc, if_false]
+    have h56 : ¬ (i.op % 8 = 5 ∨ i.op % 8 = 6) := by omega
+    simp only [h56, if_false]
+    by_cases hz : i.op % 8 = 0
+    · simp only [hz, if_true, hop, if_false]
+    · simp only [hz, if_false]
+      split
+      · simp [State.setReg]
+      · split
+        · simp
+        · split
+          · simp
+          · split <;> simp
+
+theorem step_reloc2 (prog : List Insn) (s : State) (i j : Insn) (hf : fetch prog s.pc = some i)
+    (hg : fetch prog (s.pc + 1) = some j) (hop : i.op = 0x18) :
+    step prog s = match step [i, j] { s with pc := 0 } with
+      | .next s' => .next { s' with pc := s.pc + 2 }
+      | _ => .bad := by
+  have h0 : fetch [i, j] 0 = some i := rfl
+  have h1 : fetch [i, j] (0 + 1) = some j := rfl
+  unfold step
+  simp only [hf, h0, hg, h1, hop]
+  simp
+  split <;> simp [State.setReg]
+
+theorem fetch_append_here (pre : List Insn) (i : Insn) (rest : List Insn) :
+    fetch (pre ++ i :: rest) pre.length = some i := by
+  simp [fetch]
+
+theorem fetch_append_next (pre : List Insn) (i j : Insn) (rest : List Insn) :
+    fetch (pre ++ i :: j :: rest) (pre.length + 1) = some j := by
+  have : pre ++ i :: j :: rest = (pre ++ [i]) ++ j :: rest := by simp
+  rw [this]
+  have h2 : pre.length + 1 = (pre ++ [i]).length := by simp
+  rw [h2]; exact fetch_append_here _ _ _
+
+/-- `Ebpf.run` on a non-jump segment that ends the program behaves like `exec` and falls out at the end -/
+theorem run_of_exec_aux (suf : List Insn) : ∀ (pre : List Insn) (s s' : State) (fuel : Nat),
+    s.pc = pre.length → (∀ i ∈ suf, straight i = true) → exec suf s = some s' → suf.length + 1 ≤ fuel →
+    run (pre ++ suf) fuel s = .fell { s' with pc := (pre ++ suf).length } := by
+  induction suf using exec_ind with
+  | h0 =>
+    intro pre s s' fuel hpc _ he hf
+    simp [exec] at he; subst he
+    obtain ⟨f, rfl⟩ : ∃ f, fuel = f + 1 := ⟨fuel - 1, by omega⟩
+    simp only [run, List.append_nil, hpc, if_true]
+    cases s; simp at hpc; subst hpc; rfl
+  | h1 i rest hop ih =>
+    intro pre s s' fuel hpc hst he hf
+    obtain ⟨f, rfl⟩ : ∃ f, fuel = f + 1 := ⟨fuel - 1, by simp at hf; omega⟩
+    rw [exec_cons _ _ _ hop] at he
+    cases h1 : step1 i s with
+    | none => simp [h1] at he
+    | some s2 =>
+      simp [h1] at he
+      unfold step1 at h1
+      split at h1
+      · rename_i s1 hs1
+        cases h1
+        have hne : ¬ s.pc = (pre ++ i :: rest).length := by simp [hpc]
+        have hstep := step_reloc1 (pre ++ i :: rest) s i (by rw [hpc]; exact fetch_append_here _ _ _)
+          (hst i (by simp)) hop
+        rw [hs1] at hstep
+        simp only [run, hne, if_false, hstep]
+        have e : pre ++ i :: rest = (pre ++ [i]) ++ rest := by simp
+        rw [e]
+        apply ih (pre ++ [i]) { s1 with pc := s.pc + 1 } s' f
+        · simp [hpc]
+        · intro k hk; exact hst k (by simp [hk])
+        · rw [exec_pc]; rw [exec_pc] at he; exact he
+        · simp at hf ⊢; omega
+      · cases h1
+  | h2 i j rest hop ih =>
+    intro pre s s' fuel hpc hst he hf
+    obtain ⟨f, rfl⟩ : ∃ f, fuel = f + 1 := ⟨fuel - 1, by simp at hf; omega⟩
+    rw [exec_cons2 _ _ _ _ hop] at he
+    cases h1 : step2 i j s with
+    | none => simp [h1] at he
+    | some s2 =>
+      simp [h1] at he
+      unfold step2 at h1
+      split at h1
+      · rename_i s1 hs1
+        cases h1
+        have hne : ¬ s.pc = (pre ++ i :: j :: rest).length := by simp [hpc]
+        have hstep := step_reloc2 (pre ++ i :: j :: rest) s i j (by rw [hpc]; exact fetch_append_here _ _ _)
+          (by rw [hpc]; exact fetch_append_next _ _ _ _) hop
+        rw [hs1] at hstep
+        simp only [run, hne, if_false, hstep]
+        have e : pre ++ i :: j :: rest = (pre ++ [i, j]) ++ rest := by simp
+        rw [e]
+        apply ih (pre ++ [i, j]) { s1 with pc := s.pc + 2 } s' f
+        · simp [hpc]
+        · intro k hk; exact hst k (by simp [hk])
+        · rw [exec_pc]; rw [exec_pc] at he; exact he
+        · simp at hf ⊢; omega
+      · cases h1
+  | h3 i hop =>
+    intro pre s s' fuel _ _ he _
+    rw [exec_single_ld _ _ hop] at he; cases he
+
+/-- a whole non-jump program, started at its first instruction -/
+theorem run_of_exec {c : List Insn} {s s' : State} (hst : ∀ i ∈ c, straight i = true)
+    (he : exec c s = some s') (fuel : Nat) (hf : c.length + 1 ≤ fuel) :
+    run c fuel { s with pc := 0 } = .fell { s' with pc := c.length } := by
+  have := run_of_exec_aux c [] { s with pc := 0 } s' fuel rfl hst (by rw [exec_pc]; exact he) hf
+  simpa using this
 
 end Ebv.Ebpf
